@@ -250,6 +250,86 @@ Proof.
   rewrite Hq. lra.
 Qed.
 
+(* ---- the from_penalty family: rank and log-pdet come from the PENALTY (eigenvalues of pen against the
+   tolerance) and are rescaled by rank * ln var, so nothing depends on the size of pen / var ---- *)
+
+(* closed form of from_penalty with consistent arguments: no gap, no sign condition on var *)
+Lemma from_penalty_closed : forall n pen var rk lp c, ascending n pen ->
+  rank_consistent tol_default n pen rk -> lpd_consistent tol_default n pen lp ->
+  logpdf (from_penalty n pen var rk lp) c
+  = 1 / 2 * (- quad n (fun i => pen i / var) c
+             - (INR (rank_of tol_default n pen) * ln (2 * PI)
+                - (log_pdet_tol tol_default n pen - INR (rank_of tol_default n pen) * ln var))).
+Proof.
+  intros n pen var rk lp c Ha Hr Hl.
+  unfold logpdf, from_penalty, d_log_pdet, d_rank. cbn [dim evals rank_arg lpd_arg tolv].
+  rewrite (pen_rank_consistent n pen rk Hr), (pen_log_pdet_consistent n pen rk lp Ha Hr Hl). reflexivity.
+Qed.
+
+(* with or without (true) rank / log-pdet: the same log-density, for EVERY var *)
+Theorem mvn_from_penalty_args_agree : forall n pen var rk lp rk' lp' c, ascending n pen ->
+  rank_consistent tol_default n pen rk -> lpd_consistent tol_default n pen lp ->
+  rank_consistent tol_default n pen rk' -> lpd_consistent tol_default n pen lp' ->
+  logpdf (from_penalty n pen var rk lp) c = logpdf (from_penalty n pen var rk' lp') c.
+Proof.
+  intros n pen var rk lp rk' lp' c Ha Hr Hl Hr' Hl'.
+  rewrite (from_penalty_closed n pen var rk lp c Ha Hr Hl), (from_penalty_closed n pen var rk' lp' c Ha Hr' Hl').
+  reflexivity.
+Qed.
+
+(* the three penalty variants agree for all var > 0, hypotheses on the penalty alone *)
+Theorem mvn_from_penalty_family_agree : forall n pen var rk lp rk' lp' c, 0 < var -> ascending n pen ->
+  rank_consistent tol_default n pen rk -> lpd_consistent tol_default n pen lp ->
+  rank_consistent tol_default n pen rk' -> lpd_consistent tol_default n pen lp' ->
+  logpdf (from_penalty n pen var rk lp) c = logpdf (from_penalty n pen var None None) c
+  /\ logpdf (from_penalty_smooth n pen (/ var) rk' lp') c = logpdf (from_penalty n pen var None None) c.
+Proof.
+  intros n pen var rk lp rk' lp' c Hv Ha Hr Hl Hr' Hl'.
+  assert (Hn : rank_consistent tol_default n pen None) by (left; reflexivity).
+  assert (Hm : lpd_consistent tol_default n pen None) by (left; reflexivity).
+  split.
+  - apply mvn_from_penalty_args_agree; assumption.
+  - rewrite (mvn_from_penalty_smooth_agrees n pen (/ var) rk' lp' c (Rinv_0_lt_compat var Hv)).
+    rewrite Rinv_inv. apply mvn_from_penalty_args_agree; assumption.
+Qed.
+
+Lemma rsum_lin5 : forall n A B C D,
+  1 / 2 * (- rsum n A - (rsum n B - (rsum n C - rsum n D)))
+  = rsum n (fun i => 1 / 2 * (- A i - (B i - (C i - D i)))).
+Proof. induction n as [|k IH]; intros A B C D; cbn [rsum]; [ lra | ]. rewrite <- IH. lra. Qed.
+
+(* from_penalty is the Gaussian on the range space of pen / var for all var > 0: gap on the penalty only *)
+Theorem mvn_from_penalty_range_gaussian : forall n pen var rk lp c,
+  0 < var -> ascending n pen -> gap tol_default n pen ->
+  rank_consistent tol_default n pen rk -> lpd_consistent tol_default n pen lp ->
+  logpdf (from_penalty n pen var rk lp) c = range_gaussian_logpdf n (fun i => pen i / var) c.
+Proof.
+  intros n pen var rk lp c Hv Ha Hg Hr Hl.
+  rewrite (from_penalty_closed n pen var rk lp c Ha Hr Hl).
+  unfold quad, rank_of, log_pdet_tol, range_gaussian_logpdf.
+  rewrite <- (rsum_indicator n (fun i => gtb tol_default (pen i)) (ln (2 * PI))).
+  rewrite <- (rsum_indicator n (fun i => gtb tol_default (pen i)) (ln var)).
+  rewrite rsum_lin5. apply rsum_ext. intros i Hi. cbv beta.
+  pose proof tol_default_pos as Ht.
+  destruct (Hg i Hi) as [H0|Hpos].
+  - rewrite H0. replace (0 / var) with 0 by (field; lra).
+    assert (E1 : gtb tol_default 0 = false) by (apply gtb_false_iff; lra).
+    assert (E2 : gtb 0 0 = false) by (apply gtb_false_iff; lra).
+    rewrite E1, E2, ln_1. lra.
+  - assert (Hp : 0 < pen i) by lra.
+    assert (Hq : 0 < pen i / var) by (apply Rdiv_lt_0_compat; assumption).
+    assert (E1 : gtb tol_default (pen i) = true) by (apply gtb_true_iff; exact Hpos).
+    assert (E2 : gtb 0 (pen i / var) = true) by (apply gtb_true_iff; exact Hq).
+    rewrite E1, E2. unfold normal_logpdf_prec.
+    assert (Hpi : 0 < 2 * PI) by (pose proof PI_RGT_0; lra).
+    assert (Hln : ln (2 * PI / (pen i / var)) = ln (2 * PI) - (ln (pen i) - ln var)).
+    { replace (2 * PI / (pen i / var)) with (2 * PI * (var * / pen i)) by (field; lra).
+      rewrite ln_mult; [ | exact Hpi | apply Rmult_lt_0_compat; [ exact Hv | apply Rinv_0_lt_compat; exact Hp ] ].
+      rewrite (ln_mult var (/ pen i)); [ | exact Hv | apply Rinv_0_lt_compat; exact Hp ].
+      rewrite ln_Rinv by exact Hp. lra. }
+    rewrite Hln. lra.
+Qed.
+
 (* all constructors, with or without (true) rank / log-pdet arguments, give the same log-density *)
 Theorem mvn_constructors_agree : forall n pen var rk lp rk' lp' c,
   0 < var -> ascending n pen -> pen_gap n pen var ->
@@ -429,4 +509,18 @@ Proof.
   intros c t. apply (mvn_nullspace_invariant (ctor_prec 3 ex_pen None None tol_default) c
                        (fun i => match i with O => t | _ => 0 end)).
   intros i Hi Hn. destruct i as [|i]; [ exfalso; apply Hn; reflexivity | reflexivity ].
+Qed.
+
+(* non-vacuity far outside the gap of the plain constructor: pen = [0,1,4], var = 10^7 *)
+Example mvn_from_penalty_large_var_example : forall c,
+  logpdf (from_penalty 3 ex_pen 10000000 None None) c
+  = range_gaussian_logpdf 3 (fun i => ex_pen i / 10000000) c
+  /\ logpdf (from_penalty_smooth 3 ex_pen (/ 10000000) None None) c
+     = logpdf (from_penalty 3 ex_pen 10000000 None None) c.
+Proof.
+  intros c. split.
+  - apply mvn_from_penalty_range_gaussian; try (left; reflexivity);
+      [ lra | exact ex_pen_ascending | exact ex_pen_gap0 ].
+  - apply (mvn_from_penalty_family_agree 3 ex_pen 10000000 None None None None c); try (left; reflexivity);
+      [ lra | exact ex_pen_ascending ].
 Qed.
